@@ -76,12 +76,29 @@ def run_seed(name, ids, base=None):
     return res
 
 
+BENIGN = os.path.join(VERIF, 'benign')
+
+
+def benign_sets():
+    return sorted(n for n in os.listdir(BENIGN) if os.path.exists(os.path.join(BENIGN, n, 'patch.diff'))) if os.path.isdir(BENIGN) else []
+
+
+def run_benign(name, pid):
+    """a behaviour-preserving refactor set: the check must stay silent"""
+    r = run_seed(name, [pid], base=BENIGN)[pid]
+    if r.startswith('skipped'):
+        return r
+    return 'silent (as required: behaviour unchanged)' if r == 'MISSED' else 'FALSE-ALARM'
+
+
 def run_for(pid):
     out = {}
     for name, ids, meta in seeds_for(pid):
         out[name] = run_seed(name, [pid])[pid]
     for name, p, expect in mutants_for(pid):
         out['mutant ' + name] = run_mutant(name, p, expect)
+    for name in benign_sets():
+        out['benign ' + name] = run_benign(name, pid)
     return out
 
 
@@ -102,4 +119,15 @@ if __name__ == '__main__':
         print('mutant', name, pid, r)
         sys.stdout.flush()
         bad += int(r in ('MISSED', 'FALSE-ALARM'))
+    from .manifest import CLAIMED
+    for name in benign_sets():
+        if only and not any(o == 'benign' or name.startswith(o) for o in only):
+            continue
+        for pid in sorted(CLAIMED):
+            r = run_benign(name, pid)
+            if not r.startswith('silent'):
+                print('benign', name, pid, r)
+                bad += int(r == 'FALSE-ALARM')
+        print('benign', name, 'done')
+        sys.stdout.flush()
     sys.exit(1 if bad else 0)
